@@ -362,8 +362,21 @@ def check_elevation(rec, case, fake):
     except Exception as exc:
         # the wrap at -180 makes get_tiles return nothing: still an answer, not an exception;
         # any exception is a violation of "returns ..."
-        viol("srtm-exception", {"where": "elevation", "exception": repr(exc),
-                                "trace": traceback.format_exc()[-900:]})
+        trace = traceback.format_exc()[-900:]
+        # attribute the exception to the vectors if they are already wrong (an empty latitude
+        # vector makes elevation() raise on lats_d.min())
+        problems = []
+        try:
+            lats, lons = SRTM30.get_native_grids(*rect)
+            info, problems = judge_vectors(rect, lats, lons)
+        except Exception:
+            pass
+        if problems:
+            for key, detail in problems:
+                viol(key, dict(detail, where="elevation", info=info, elevation_raised=repr(exc)))
+        else:
+            viol("srtm-exception", {"where": "elevation", "exception": repr(exc),
+                                    "trace": trace})
         return keys
     requests = list(fake.lru.requests)
     info, problems = judge_vectors(rect, lats, lons)
